@@ -33,7 +33,19 @@ typedef struct {
 	sqfs_data_reader_t *data;
 	sqfs_dir_reader_t *rd;
 	sqfs_id_table_t *id;
+
+	/* inode references of the directories that were descended into
+	   to get here, including the one this iterator reads */
+	size_t num_ancestors;
+	sqfs_u64 *ancestors;
 } iterator_t;
+
+static int create_iterator(sqfs_dir_reader_t *rd, sqfs_id_table_t *id,
+			   sqfs_data_reader_t *data,
+			   sqfs_xattr_reader_t *xattr,
+			   const sqfs_inode_generic_t *inode,
+			   const iterator_t *parent, sqfs_u64 ref,
+			   sqfs_dir_iterator_t **out);
 
 static int it_next(sqfs_dir_iterator_t *base, sqfs_dir_entry_t **out)
 {
@@ -114,8 +126,15 @@ static int it_open_subdir(sqfs_dir_iterator_t *base, sqfs_dir_iterator_t **out)
 		return SQFS_ERROR_NOT_DIR;
 	}
 
-	return sqfs_dir_iterator_create(it->rd, it->id, it->data, it->xattr,
-					it->inode, out);
+	/* an image can make a directory contain one of its own ancestors;
+	   following that would never end */
+	for (size_t i = 0; i < it->num_ancestors; ++i) {
+		if (it->ancestors[i] == it->state.ent_ref)
+			return SQFS_ERROR_LINK_LOOP;
+	}
+
+	return create_iterator(it->rd, it->id, it->data, it->xattr,
+			       it->inode, it, it->state.ent_ref, out);
 }
 
 static void it_ignore_subdir(sqfs_dir_iterator_t *it)
@@ -166,15 +185,16 @@ static void it_destroy(sqfs_object_t *obj)
 	sqfs_drop(it->rd);
 	sqfs_drop(it->data);
 	sqfs_drop(it->xattr);
+	free(it->ancestors);
 	sqfs_free(it);
 }
 
-int sqfs_dir_iterator_create(sqfs_dir_reader_t *rd,
-			     sqfs_id_table_t *id,
-			     sqfs_data_reader_t *data,
-			     sqfs_xattr_reader_t *xattr,
-			     const sqfs_inode_generic_t *inode,
-			     sqfs_dir_iterator_t **out)
+static int create_iterator(sqfs_dir_reader_t *rd, sqfs_id_table_t *id,
+			   sqfs_data_reader_t *data,
+			   sqfs_xattr_reader_t *xattr,
+			   const sqfs_inode_generic_t *inode,
+			   const iterator_t *parent, sqfs_u64 ref,
+			   sqfs_dir_iterator_t **out)
 {
 	sqfs_dir_iterator_t *base;
 	iterator_t *it;
@@ -188,8 +208,27 @@ int sqfs_dir_iterator_create(sqfs_dir_reader_t *rd,
 
 	sqfs_object_init(it, it_destroy, NULL);
 
+	if (parent != NULL) {
+		it->ancestors = alloc_array(sizeof(it->ancestors[0]),
+					    parent->num_ancestors + 1);
+		if (it->ancestors == NULL) {
+			sqfs_free(it);
+			return SQFS_ERROR_ALLOC;
+		}
+
+		if (parent->num_ancestors > 0) {
+			memcpy(it->ancestors, parent->ancestors,
+			       parent->num_ancestors *
+			       sizeof(it->ancestors[0]));
+		}
+
+		it->ancestors[parent->num_ancestors] = ref;
+		it->num_ancestors = parent->num_ancestors + 1;
+	}
+
 	ret = sqfs_dir_reader_open_dir(rd, inode, &it->state, 0);
 	if (ret) {
+		free(it->ancestors);
 		sqfs_free(it);
 		return ret;
 	}
@@ -212,4 +251,14 @@ int sqfs_dir_iterator_create(sqfs_dir_reader_t *rd,
 
 	*out = base;
 	return 0;
+}
+
+int sqfs_dir_iterator_create(sqfs_dir_reader_t *rd,
+			     sqfs_id_table_t *id,
+			     sqfs_data_reader_t *data,
+			     sqfs_xattr_reader_t *xattr,
+			     const sqfs_inode_generic_t *inode,
+			     sqfs_dir_iterator_t **out)
+{
+	return create_iterator(rd, id, data, xattr, inode, NULL, 0, out);
 }
